@@ -916,7 +916,46 @@ func (c *cluster) settle() {
 			return
 		}
 	}
+	// Some replica does not hand over blocks any more although it is up and connected. Nothing is concluded from
+	// the silence itself; but if such a replica is made the leader, what it proposes and hands over next is a fact.
+	if c.p.Mode == "raft3" {
+		c.leadershipProbe()
+	}
 	panic(stopScenario{"marker transaction not delivered everywhere"})
+}
+
+// rotate the leadership by isolating the current leader a few times, with one transaction per new leader
+func (c *cluster) leadershipProbe() {
+	defer func() {
+		if r := recover(); r != nil {
+			if _, ok := r.(stopScenario); !ok {
+				panic(r)
+			}
+		}
+	}()
+	for try := 0; try < 3; try++ {
+		l := c.waitLeader()
+		g := [][]int{{l.id}, {}}
+		for _, v := range c.nodes {
+			if v.id != l.id {
+				g[1] = append(g[1], v.id)
+			}
+		}
+		c.tr.emit(map[string]interface{}{"ev": "Net", "op": "isolate", "n": l.id, "fault": true})
+		c.nt.partition(g)
+		time.Sleep(20 * time.Millisecond)
+		nl := c.waitLeader()
+		c.mu.Lock()
+		c.nextMark++
+		id := 100000 + c.nextMark
+		c.mu.Unlock()
+		c.submit(nl, []int{id}, false)
+		hs := c.tx(id).GetHash().String()
+		c.waitFor("probe", true, func() bool { return nl.sawTx(hs) })
+		c.tr.emit(map[string]interface{}{"ev": "Net", "op": "heal", "n": 0, "fault": false})
+		c.nt.partition(nil)
+		time.Sleep(30 * time.Millisecond)
+	}
 }
 
 // block fetch served from the executed blocks of node `to`
